@@ -201,7 +201,7 @@ fn current(env: &Env, cs: &ClientState, e: usize) -> Arc<dyn Sampler> {
 fn persist(s: &dyn Sampler, fmt: Fmt) -> Result<Durable, String> {
     match fmt {
         Fmt::Tree => Ok(Durable::Tree(s.image())),
-        Fmt::TreeBinary => Ok(Durable::TreeBinary(s.image_binary())),
+        Fmt::TreeBinary => s.image_binary().map(Durable::TreeBinary),
         Fmt::Json => s.to_json().map(Durable::Json),
         Fmt::JsonPretty => s.to_json_pretty().map(Durable::Json),
         Fmt::JsonValue => s.to_json_value().map(Durable::JsonValue),
